@@ -11,6 +11,8 @@ BAD_CERTS = ["bad1", "bad2"]       # OpenSSL serves them, cryptography cannot pa
 EC_CERTS = ["ec1"]
 CLIENT_CERTS = ["cli_rsa1", "cli_rsa2", "cli_ed1", "cli_same1", "cli_same2"]   # same1/2: same subject
 CLONE_CERTS = ["clone_a", "clone_b"]   # same issuer, subject and serial number, different keys
+CA_CERTS = ["caleaf1", "caleaf2", "caleaf3"]   # issued by the private CA "simca" for every simulated host name
+CA_FILE_NAME = "simca"
 EXPIRED_CERTS = ["expired1"]       # validity 2000-2001; OpenSSL serves it, TOFU pins by fingerprint
 
 
